@@ -461,6 +461,39 @@ pub fn gen(prop: &str, rng: &mut Rng, thorough: bool, out: &mut Sink) {
         }
         out.group(lines);
     }
+    // ---- tokenizers converted from generated Tokenizers sources that walk through every normalizer, pre-tokenizer,
+    // post-processor and decoder variant of the converter (C18: "loaded successfully from a well-formed source")
+    if prop == "C18" || prop == "C02" || prop == "C09" {
+        let nzoo = if thorough { 600 } else { 60 };
+        for v in 0..nzoo {
+            let bytes = crate::c17::hf_zoo(rng, v);
+            let def = match guarded(|| Definition::from_tokenizers_slice(&bytes).ok()).flatten() {
+                Some(d) => d,
+                None => {
+                    out.count("zoo_sources_rejected");
+                    continue;
+                }
+            };
+            let mut lines = Vec::new();
+            let tk = load(slot, "zoo", def, &mut lines);
+            slot += 1;
+            if tk.tok.is_none() {
+                out.count("zoo_defs_failed_init");
+                out.group(lines);
+                continue;
+            }
+            out.count("zoo_tokenizers");
+            for _ in 0..(ntexts / 2) {
+                let text = text_for_wide(rng, &tk.def, true, true);
+                for s in [false, true] {
+                    if let Some(l) = enc_line(op, &tk, &text, s) {
+                        lines.push(l);
+                    }
+                }
+            }
+            out.group(lines);
+        }
+    }
     // ---- shipped models
     let nship = if thorough { 1500 } else { 60 };
     let corpus: Vec<String> = ["small_input.txt", "mixed_input.txt", "utf8_input.txt"]
